@@ -17,11 +17,11 @@ func init() {
 		ID:    "C12",
 		Title: "Size JSON forms are gated by rules and objects are read faithfully",
 		Run:   runC12,
-		Explanation: "C12.gate: decision table of size.unmarshalJSON over (dynamic token type, string-rule bit, object-rule bit) extracted by predicate abstraction and compared with the documented outcomes; DefaultParser enters JSON mode iff a JSON rule bit is set; UseNumber precedes the first Token. " +
+		Explanation: "C12.gate: decision table of size.unmarshalJSON over (dynamic token type, string-rule bit, object-rule bit) extracted by predicate abstraction and compared with the documented outcomes (number and string tokens go to the text parser, the string with the rule's RuleDisableUnit bit: the result is what the text rules give); DefaultParser enters JSON mode iff a JSON rule bit is set; UseNumber precedes the first Token. " +
 			"C12.whole: every success return of the JSON path is preceded, after the value is complete, by an end-of-input check of an enumerated form (Token()==io.EOF, More(), InputOffset, json.Valid), and the object path consumes its closing delimiter. " +
 			"C12.zero: every comparison against the exported limit MaxObjectKeys is conjoined with a `!= 0` test (0 disables, as at the five MaxInputLength sites). " +
 			"C12.count: in the key loop every path from a member read to the success exit passes a limit comparison that covers that read (order independence of the verdict). " +
-			"C12.object: the members reach newSize as decoded by decodeValue / decodeUnit, which accept only a number resp. string token (null counts as wrongly typed) — C08.object under this property. C12.keyeq: a member is value / unit only when its lower-cased key equals the constant (C04.keys). C12.keys: lower-cased key switch against lower-case constants equal to the marshal keys; duplicate tests precede decoding and return the matching ErrDuplicated*; newOrError maps nil to ErrMissingValueKey/ErrMissingUnitKey; decodeValue/decodeUnit accept exactly json.Number/string; the default arm returns ErrUnexpectedKey iff RuleDisallowUnknownKeys else skips nested values with a depth counter. " +
+			"C12.object: the members reach newSize as decoded by decodeValue / decodeUnit, which accept only a number resp. string token (null counts as wrongly typed) — C08.object under this property. C12.keyeq: a member is value / unit only when its lower-cased key equals the constant (C04.keys, strict: the normaliser is a function of the module evaluated byte class by byte class to A–Z ↦ a–z and nothing else; strings.ToLower also folds U+0130 and U+212A). C12.keys: lower-cased key switch against lower-case constants equal to the marshal keys; duplicate tests precede decoding and return the matching ErrDuplicated*; newOrError maps nil to ErrMissingValueKey/ErrMissingUnitKey; decodeValue/decodeUnit accept exactly json.Number/string; the default arm returns ErrUnexpectedKey iff RuleDisallowUnknownKeys else skips nested values with a depth counter. " +
 			"C12.all: the member loop is left for the success path only on the edge where More() reports no member left (otherwise later duplicates, unknown keys and the member count go unexamined and the verdict depends on member order). " +
 			"S-WRAP: sentinels bound to %w; errors of the object reader re-wrapped by newParseError.",
 		NotDecided:  []string{"encoding/json tokenisation itself", "numeric equality of results (C08)", "behaviour for inputs longer than MaxInputLength (C18)"},
@@ -61,7 +61,7 @@ func runC12(e *Env) {
 	// a member is value / unit only if its lower-cased key equals the constant: C04.keys
 	e.As(map[string]string{"C08.object": "C12.object", "C04.keys": "C12.keyeq"}, func() {
 		ruleC08Object(e)
-		ruleC04Keys(e)
+		ruleKeys(e, "C12.keyeq", true)
 	})
 	e.S.Floor("C12.object", 6)
 	e.S.Floor("C12.keyeq", 4)
@@ -128,6 +128,8 @@ func ruleC12Gate(e *Env) {
 		return
 	}
 	site := flow.FnName(jv)
+	unitBit, _ := tabConstInt(e, "size", "RuleDisableUnit")
+	unitRule := maskedSym("r", unitBit)
 	strBit, _ := tabConstInt(e, "size", "RuleEnableJSONStringForm")
 	objBit, _ := tabConstInt(e, "size", "RuleEnableJSONObjectForm")
 	keyOf := func(a, b pred.Val) (string, bool) {
@@ -217,13 +219,19 @@ func ruleC12Gate(e *Env) {
 					}
 				}
 			case "Number":
+				// a number token carries no unit: rule 0 or the unit bit of the rule, the text parser decides the same
 				want = "unmarshalText#0(tok,0) / unmarshalText#1(tok,0)"
+				if alt := fmt.Sprintf("unmarshalText#0(tok,%v) / unmarshalText#1(tok,%v)", unitRule, unitRule); val+" / "+errk == alt {
+					want = alt
+				}
 			case "string":
 				switch get(kStr) {
 				case 1:
 					want = "0 / ParseError(ErrStringFormDisabled)"
 				case 0:
-					want = "unmarshalText#0(tok,0) / unmarshalText#1(tok,0)"
+					// "the result equals what the text rules give for the decoded string": the text parser gets the rule's
+					// RuleDisableUnit bit, nothing else of the rule
+					want = fmt.Sprintf("unmarshalText#0(tok,%v) / unmarshalText#1(tok,%v)", unitRule, unitRule)
 				}
 			default:
 				want = "0 / ParseError(wrap(ErrInvalidType))"
